@@ -17,7 +17,7 @@ def generate(rng, tier):
     out = []
     for k in range(n):
         lines = []
-        t = rng.choice([0, 0, 1, 999, 1000, 123456789, 999999999, 1000000000, 3600 * 10**9])
+        t = rng.choice([0, 0, 1, 999, 1000, 123456789, 999999999, 1000000000, 3600 * 10**9, 4294967000000, 4294967296000, 4999960000000, 9000500000000, 86400 * 10**9])
         for _ in range(rng.randint(1, 12)):
             t += rng.choice([0, 0, 1, 500, 1000, 999999, 1000000, 30000000, 1000000000, 7575000])
             tcp = rng.choice([0, 1])
